@@ -8,6 +8,9 @@ KEYC = {"k": "k", "K": "K", "e1": "é", "e2": "é", "bad": "\x01", "": ""}
 NAMEC = {"_x": "_x", "_X": "_X", "_y": "_y", "_Y": "_Y", "bad": "x"}
 
 
+SCALAR_TEXTS = ["a", "", "?", ".", "12", "1.5(2)", "data_x", "$v", "_n", "a b", "a[b", "{}", "a[ b"]
+
+
 def exp_val(v):
     k = v["k"]
     if k == "char":
@@ -80,6 +83,7 @@ def to_cmds(e):
         if "kind" in e: c["kind"] = KIND[e["kind"]]
         if "text" in e: c["text"] = e["text"]
         if "index" in e: c["index"] = e["index"]
+        if "q" in e: c["q"] = e["q"]
         if "key" in e: c["key"] = KEYC[e["key"]]
         if e.get("arg") not in (None, "NULL"): c["arg"] = e["arg"]
         if e.get("out"): c["out"] = e["out"]
@@ -110,6 +114,8 @@ def compare(e, o):
             d.append("value of %s is %s, specified %s" % (e["v"], json.dumps(obs_val(o.get("val")))[:200], json.dumps(exp_val(e["val"]))[:200]))
         elif numb_problem(o.get("val")):
             d.append("value of %s: %s" % (e["v"], numb_problem(o.get("val"))))
+    elif f == "get_text" and (o.get("text") if e["has"] else "") != e["text"] or f == "get_text" and (o.get("text") is None) != (e["has"] == 0):
+        d.append("get_text gives %r, specified %r" % (o.get("text"), e["text"] if e["has"] else None))
     elif f == "count" and e["rc"] == 0 and o.get("n") != e["n"]:
         d.append("count %s, specified %s" % (o.get("n"), e["n"]))
     elif f == "get_keys" and e["rc"] == 0 and sorted(o.get("keys", [])) != sorted(KEYC[k] for k in e["keys"]):
@@ -211,9 +217,9 @@ def run_vjobs(binary, jobs, batch=60):
 
 def value_cfg(p):
     q = lambda xs: "{" + ", ".join('"%s"' % x for x in xs) + "}"
-    return ("SPECIFICATION Spec\nCONSTANTS\n SLOTS <- %s\n REFS <- %s\n TEXTS = %s\n NUMTEXTS = %s\n KEYS = %s\n PNAMES = %s\n KINDS = %s\n MaxList = %d\n MaxEntries = %d\n MaxDepth = %d\n MaxHist = %d\n"
+    return ("SPECIFICATION Spec\nCONSTANTS\n SLOTS <- %s\n REFS <- %s\n TEXTS = %s\n NUMTEXTS = %s\n KEYS = %s\n PNAMES = %s\n KINDS = %s\n QUOTES = %s\n GETNUM = %s\n Class <- MCClass\n MaxList = %d\n MaxEntries = %d\n MaxDepth = %d\n MaxHist = %d\n"
             " CanonK <- MCCanonK\n FoldN <- MCFoldN\nVIEW View\nINVARIANT EmitState\nACTION_CONSTRAINT EmitEdge\nINVARIANT Model\nPROPERTY CloneEqual OthersIntact\nCHECK_DEADLOCK FALSE\n"
-            % (p["slots"], p["refs"], q(p["texts"]), q(p.get("numtexts", [])), q(p["keys"]), q(p["pnames"]), q(p["kinds"]), p["maxlist"], p["maxentries"], p["maxdepth"], p["maxhist"]))
+            % (p["slots"], p["refs"], q(p["texts"]), q(p.get("numtexts", [])), q(p["keys"]), q(p["pnames"]), q(p["kinds"]), "{" + ", ".join(str(x) for x in p.get("quotes", [])) + "}", q(p.get("getnum", [])), p["maxlist"], p["maxentries"], p["maxdepth"], p["maxhist"]))
 
 
 def shrink_v(binary, job):
@@ -243,12 +249,14 @@ def c19(tier, replay=None):
     if tier == "quick":
         plans = [("lists-tables-d4", dict(base)),
                  ("numbers-d4", dict(base, kinds=["char", "list"], keys=["k"], pnames=["_x"], numtexts=["1.5(2)", "-3e2"], maxhist=4)),
-                 ("packets-d4", dict(base, kinds=["char", "list"], keys=["k"], pnames=["_x", "_X", "_y", "bad"], maxhist=4, refs="Refs1", slots="Slots2"))]
+                 ("packets-d4", dict(base, kinds=["char", "list"], keys=["k"], pnames=["_x", "_X", "_y", "bad"], maxhist=4, refs="Refs1", slots="Slots2")),
+                 ("scalars-d3", dict(base, slots="Slots1", kinds=["char", "numb", "list", "na", "unk"], keys=["k"], pnames=["_x"], texts=SCALAR_TEXTS, quotes=[0, 1], getnum=["get_number", "get_su"], maxlist=1, maxhist=3))]
     else:
         plans = [("numbers-d5", dict(base, kinds=["char", "list", "table"], keys=["k"], pnames=["_x"], numtexts=["1.5(2)", "-3e2"], maxhist=5)),
                  ("lists-tables-d5", dict(base, maxhist=5, slots="Slots3", refs="Refs2", keys=["k", "K", "e1", "e2", "bad"], kinds=["char", "numb", "list", "table", "na", "unk"])),
                  ("growth-d7", dict(base, kinds=["list", "char"], keys=["k"], pnames=["_x"], maxlist=5, maxhist=7, refs="Refs1", slots="Slots2")),
-                 ("packets-d5", dict(base, kinds=["char", "list"], keys=["k"], pnames=["_x", "_X", "_y", "bad"], maxhist=5))]
+                 ("packets-d5", dict(base, kinds=["char", "list"], keys=["k"], pnames=["_x", "_X", "_y", "bad"], maxhist=5)),
+                 ("scalars-d4", dict(base, slots="Slots2", kinds=["char", "numb", "list", "table", "na", "unk"], keys=["k"], pnames=["_x"], texts=SCALAR_TEXTS, quotes=[0, 1], getnum=["get_number", "get_su"], maxlist=1, maxhist=4))]
     covs = []
     tstates = ttrans = tok = 0
     opcov = collections.Counter()
